@@ -273,6 +273,7 @@ func runC06(r *core.Run) {
 	}
 	c06Offline(r)
 	c06Options(r)
+	c06History(r)
 	r.Sample(map[string]any{"constructor": "NewLeaseSet2", "variation": "offline transient P-256 + options a=''", "steps": "Verify, Bytes, ReadLeaseSet2, Verify, VerifyRaw"})
 	r.Sample(map[string]any{"constructor": "NewRouterInfo", "variation": "255 addresses"})
 }
@@ -303,5 +304,7 @@ func replayC06(r *core.Run, c core.Case) {
 		}
 	case "offline":
 		c06Offline(r)
+	case "history":
+		c06History(r)
 	}
 }
